@@ -1089,10 +1089,26 @@ func main() {
 	c.runSpace(vb, vroute.PacketOpts{Compact: true, MappedForms: true}, true, true, true)
 	lb := longBase()
 	c.runSpace(lb, vroute.PacketOpts{Compact: true}, true, true, true)
+	// (a3) prefix spellings: plain / IPv4-mapped / IPv6 spellings of prefixes at lengths around the /96 boundary,
+	// every program under a fixed set of variants covering the three ring states (thorough: the deeper alphabet
+	// under all 60 variants); full boundary product plus interior addresses of every prefix
+	ps := fromV(vroute.PrefixSpellings(r.Thorough()))
+	if !r.Thorough() {
+		ps.variants = []int{0, 19, 38}
+	} else {
+		for k := 0; k < nVariants; k++ { // ring {0,1,2} x ids {(2,3),(250,251)} x marks {as written, per-rule}
+			if v := variantAt(k); (v.Ids == 0 || v.Ids == 2) && (v.Mark == 0 || v.Mark == 3) {
+				ps.variants = append(ps.variants, k)
+			}
+		}
+	}
+	p0 := c.programs.Load()
+	c.runSpace(ps, vroute.PacketOpts{MappedForms: true, Interior: true}, true, true, true)
+	pfxPrograms := c.programs.Load() - p0
 	t1 := fromV(vroute.Tier1())
 	c.runSpace(t1, full, true, true, false)
 	c.runSpace(fromV(vroute.Tier2(1, true, vroute.Tier2Outbounds)), full, true, true, r.Thorough())
-	rule := "histories leg: " + histDescr + ". programs: (a) " + vb.Descr + " (compact packet product); (a2) " + lb.Descr + " (compact packet product); (b) tier 1 = " + t1.Descr + "; (c) tier 2 = 4 rotations of three independent atoms, rule = any non-empty conjunction of {A,!A,B,!B,C,!C} (26) x single/multi-valued realisation x outbound: all programs of exactly 1 rule (realisation per rule, 5 outbounds incl. must_rules)"
+	rule := "histories leg: " + histDescr + ". programs: (a) " + vb.Descr + " (compact packet product); (a2) " + lb.Descr + " (compact packet product); (a3) " + ps.Descr + fmt.Sprintf(", each under %d variants (quick: ring state 0 with ids/marks as written, ring state 1 with ids (3,2) and mark variant 1, ring state 2 with ids (250,251) and mark variant 2; thorough: the deeper alphabet under the 12 variants ring 0,1,2 x ids (2,3),(250,251) x marks as written / per rule), full packet product plus per prefix the interior addresses first+1, first of the upper half, last", map[bool]int{false: 3, true: 12}[r.Thorough()]) + "; (b) tier 1 = " + t1.Descr + "; (c) tier 2 = 4 rotations of three independent atoms, rule = any non-empty conjunction of {A,!A,B,!B,C,!C} (26) x single/multi-valued realisation x outbound: all programs of exactly 1 rule (realisation per rule, 5 outbounds incl. must_rules)"
 	if !r.Thorough() {
 		c.runSpace(fromV(vroute.Tier2(2, false, vroute.Tier2OutboundsSmall)), vroute.PacketOpts{Compact: true}, true, false, false)
 		rule += " and, quick tier, all programs of exactly 2 rules over the 3 outbounds {g1, must_g2, must_rules} with the realisation chosen per program (compact packet product: one inside + one outside neighbour per constant)"
@@ -1118,6 +1134,9 @@ func main() {
 			if c.perVar[k] == 0 {
 				broken("vacuous exploration: variant %s never ran", variantAt(k))
 			}
+		}
+		if pfxPrograms == 0 {
+			broken("vacuous exploration: the prefix-spelling leg ran no program")
 		}
 		if c.dnsCP.Load() == 0 || c.dnsMust.Load() == 0 || c.ringWrap == 0 || c.domKnown.Load() == 0 {
 			broken("vacuous exploration: dns=%d dns-must=%d ring-wraps=%d domain=%d", c.dnsCP.Load(), c.dnsMust.Load(), c.ringWrap, c.domKnown.Load())
